@@ -18,6 +18,7 @@ git checkout -q -- . ; git clean -fdq -e target >/dev/null 2>&1
 echo "== demo WITHOUT change" >> $LOG
 ( bash $SC/demo$N.cmd ) >> $LOG 2>&1; D0=$?
 git apply $SC/mut$N.diff || { echo "patch does not apply" | tee -a $LOG; exit 2; }
+touch feel-number/build.rs     # (a changed C file of the bundled decimal library is recompiled only when the build script is newer)
 echo "== suite WITH change" >> $LOG
 NEXTEST_EXPERIMENTAL_LIBTEST_JSON=1 CARGO_NET_OFFLINE=true cargo nextest run --workspace --no-fail-fast --test-threads 8 --offline --message-format libtest-json-plus > $OUT/nextest.json 2>>$LOG
 PASSED=$(python3 - $OUT/nextest.json <<'PY'
@@ -37,7 +38,7 @@ rm -f $OUT/nextest.json
 echo "suite with change: passing/baseline = $PASSED" >> $LOG
 echo "== demo WITH change" >> $LOG
 ( bash $SC/demo$N.cmd ) >> $LOG 2>&1; D1=$?
-git checkout -q -- . ; git clean -fdq -e target >/dev/null 2>&1
+git checkout -q -- . ; git clean -fdq -e target >/dev/null 2>&1; touch feel-number/build.rs
 # now the registered checks against /repo
 cd /repo && git apply $SC/mut$N.diff || { echo "patch does not apply to /repo" | tee -a $LOG; exit 2; }
 RES=""
